@@ -10,7 +10,7 @@ from .store_replay import replay
 from .tlc import account, run_tlc
 
 INVARIANTS = ['TypeOK', 'NoForeignValue', 'StoreSound', 'HeldOnlyOwn', 'RunsJustified', 'AtMostOnce']
-PROPERTIES = ['OnlyOnDemand', 'RunOnlyIfNeeded', 'NoDoubleRun', 'ForceExact', 'MultiForceAll', 'ForcedRuns', 'UnforcedLoads', 'RequestDelivers',
+PROPERTIES = ['OnlyOnDemand', 'RunOnlyIfNeeded', 'AddChainKeeps', 'NoDoubleRun', 'ForceExact', 'MultiForceAll', 'ForcedRuns', 'UnforcedLoads', 'RequestDelivers',
               'FailLeavesNothing']
 
 
@@ -48,6 +48,8 @@ def check_model(ctx, model, label, max_steps, slots=2, force_sets='small', **fla
     res = run_tlc(name, cfg_text=cfg(subst, max_steps, **flags), extra_files={f'{name}.tla': text}, coverage=True,
                   timeout=3000)
     dead_ok = set()
+    if not any(len(l) == 2 and [l[0]] in model.lists for l in model.lists):
+        dead_ok |= {'AddChain'}
     if not flags.get('force', True):
         dead_ok |= {'Force', 'ChainForce'}
     if not flags.get('restart', True):
@@ -107,6 +109,8 @@ def describe(model, beh, upto=None):
             out.append(f"value(s{act['s']}.m{act['m']}.{act['n']}" + (f", run of #{act['f']} raises)" if act['f'] else ')'))
         elif n == 'NewChain':
             out.append(f"s{act['s']}=Chain(..)")
+        elif n == 'AddChain':
+            out.append(f"s{act['s']}+=Chain({act['n']}, shared_tasks=registry of s{act['s']})")
         elif n == 'Force':
             out.append(f"force(s{act['s']}.m{act['m']}.{act['n']}, delete={act['del']})")
         elif n in ('ChainForce', 'MultiForce'):
